@@ -60,7 +60,9 @@ def g_cfg(frac, blocks, n1, n2, alphabet):
 
 
 def behaviours_of(res):
-    return [v["h"] for v in res.printed if isinstance(v, dict) and v.get("kind") == "B"]
+    # sorted: TLC's workers print in a nondeterministic order, the seeded sampling must not depend on it
+    return sorted((v["h"] for v in res.printed if isinstance(v, dict) and v.get("kind") == "B"),
+                  key=lambda b: json.dumps(b, sort_keys=True))
 
 
 def nontrivial(b):
@@ -79,7 +81,9 @@ def generate(ctx):
             behs += json.load(open(os.path.join(wdir, f)))["behaviours"]
     nw = len(behs)
     # M: exhaustive design-level runs
-    ms = [ctx.tlc_must("Slash", m_cfg(2, 1, 1, 0, "pairs"), name="M_pairs_f2", timeout=900, coverage=not quick),
+    # (no `-coverage`: TLC's coverage bookkeeping runs out of memory on the recursive fold operators of Slash.tla; the module has
+    # one action, Block, and non-vacuity is shown by the M_known_cex run and by the per-clause counters of the monitor)
+    ms = [ctx.tlc_must("Slash", m_cfg(2, 1, 1, 0, "pairs"), name="M_pairs_f2", timeout=900),
           ctx.tlc_must("Slash", m_cfg(50, 1, 1, 0, "pairs"), name="M_pairs_f50", timeout=900),
           ctx.tlc_must("Slash", m_cfg(50, 2, 2, 1, "lists"), name="M_lists_f50", timeout=900),
           ctx.tlc_must("Slash", m_cfg(2, 2, 2 if quick else 3, 1, "lists"), name="M_lists_f2", timeout=1500)]
@@ -93,8 +97,6 @@ def generate(ctx):
     ctx.cov["exhaustive"] = all(m.ok for m in ms)
     ctx.cov["design_violation"] = next((m.violated for m in ms if m.violated), None)
     ctx.cov["design_cex_known"] = mk.violated
-    if getattr(ms[0], "zero_actions", None):
-        ctx.cov["coverage_zero_actions"] = ms[0].zero_actions
     ncex = len(behs) - nw
     # G1
     core = behaviours_of(ctx.tlc_must("Slash", g_cfg(2, 1, 2, 0, "lists"), name="G1_core", timeout=600))
@@ -116,6 +118,9 @@ def generate(ctx):
         for key in sorted(p2):
             behs.append(p2[key] if rnd.random() < 0.5 or key not in p50 else p50[key])
         behs += lists50 + lists2
+        # lists of three evidences in the first block: a seeded sample
+        lists3 = behaviours_of(ctx.tlc_must("Slash", g_cfg(2, 2, 3, 1, "lists"), name="G1_lists3_f2", timeout=900))
+        behs += rnd.sample(lists3, min(len(lists3), 1200))
     ctx.note("behaviours: %d witnesses, %d design counterexamples, %d generated (of %d enumerated)" % (
         nw, ncex, len(behs) - nw - ncex, len(core) + len(pairs2) + len(pairs50) + len(lists50) + len(lists2)))
     return behs, design_cex
@@ -135,8 +140,14 @@ def drive_sharded(ctx, bpath, trace, shards):
     """BLS verification dominates the cost (about 13 ms each): run the driver in `shards` processes and merge the traces."""
     ctx.build_harness("slash")
     outs = [ctx.path("trace_shard%d.ndjson" % i) for i in range(shards)]
+    extra = {}
+    if os.environ.get("VERIF_C05_KINDBOUND") == "1":
+        # experiment switch, used only to try out the proposed repair in a scratch worktree: the driver signs votes over
+        # hash || round || index || kind, as a repaired voter would
+        extra["kindbound"] = "1"
+        ctx.note("EXPERIMENT: votes signed with the kind bound into the payload (VERIF_C05_KINDBOUND=1)")
     with concurrent.futures.ThreadPoolExecutor(max_workers=shards) as ex:
-        futs = [ex.submit(ctx.drive, "slash", outs[i], bpath, {"shard": "%d/%d" % (i, shards)}, 2400) for i in range(shards)]
+        futs = [ex.submit(ctx.drive, "slash", outs[i], bpath, dict(extra, shard="%d/%d" % (i, shards)), 2400) for i in range(shards)]
         infos = [f.result() for f in futs]
     by_t = {}
     for i, o in enumerate(outs):
